@@ -1,6 +1,6 @@
 /- GENERATED from the C text of /repo by harness/gen/gen_src.py on every check run; do not edit. -/
 import UrcuVerif.Src.IR
-set_option maxRecDepth 4096
+set_option maxRecDepth 8192
 namespace UrcuVerif.Gen.Src
 open UrcuVerif.Src
 
@@ -257,14 +257,129 @@ def «urcu_ref_get_safe.params» : List String := ["ref"]
 /-- `urcu_ref_put` (include/urcu/ref.h) -/
 def «urcu_ref_put» : Stmt :=
   block [(.prim (some "_t1") .usubret [.fieldAddr (.var "ref") "refcount", .lit 1, .cst "CMM_SEQ_CST_FENCE" (6)]), (.assign "res" (.var "_t1")), (.ifte (.bin .eq (.var "res") (.lit 0)) (.prim none (.ext "release") [.var "ref"]) (.skip))]
-def «urcu_ref_put.params» : List String := ["ref", "urcu_ref"]
+def «urcu_ref_put.params» : List String := ["ref", "release"]
 
 /-- `urcu_ref_get_unless_zero` (include/urcu/ref.h) -/
 def «urcu_ref_get_unless_zero» : Stmt :=
   block [(.prim (some "_t1") .uload [.fieldAddr (.var "ref") "refcount", .cst "CMM_RELAXED" (0)]), (.assign "old" (.var "_t1")), (.loop (block [(.ifte (.bin .lor (.bin .eq (.var "old") (.lit 0)) (.bin .eq (.var "old") (.cst "LONG_MAX" (9223372036854775807)))) (.ret (some (.lit 0))) (.skip)), (.assign "_new" (.bin .add (.var "old") (.lit 1))), (.prim (some "_t2") .ucmpxchg [.fieldAddr (.var "ref") "refcount", .var "old", .var "_new", .cst "CMM_SEQ_CST_FENCE" (6), .cst "CMM_RELAXED" (0)]), (.assign "res" (.var "_t2")), (.ifte (.bin .eq (.var "res") (.var "old")) (.ret (some (.lit 1))) (.skip)), (.assign "old" (.var "res"))]))]
 def «urcu_ref_get_unless_zero.params» : List String := ["ref"]
 
+/-- `urcu_wait_add` (src/urcu-wait.h) -/
+def «urcu_wait_add» : Stmt :=
+  block [(.prim (some "_t1") (.ext "cds_wfs_push") [.fieldAddr (.var "queue") "stack", .fieldAddr (.var "node") "node"]), (.ret (some (.var "_t1")))]
+def «urcu_wait_add.params» : List String := ["queue", "node"]
+
+/-- `urcu_move_waiters` (src/urcu-wait.h) -/
+def «urcu_move_waiters» : Stmt :=
+  block [(.prim (some "_t1") (.ext "__cds_wfs_pop_all") [.fieldAddr (.var "queue") "stack"]), (.assign "_t2" (.var "_t1")), (.pstore (.fieldAddr (.var "waiters") "head") (.var "_t2"))]
+def «urcu_move_waiters.params» : List String := ["waiters", "queue"]
+
+/-- `urcu_wait_set_state` (src/urcu-wait.h) -/
+def «urcu_wait_set_state» : Stmt :=
+  block [(.assign "_t1" (.var "state")), (.pstore (.fieldAddr (.var "node") "state") (.var "_t1"))]
+def «urcu_wait_set_state.params» : List String := ["node", "state"]
+
+/-- `urcu_wait_node_init` (src/urcu-wait.h) -/
+def «urcu_wait_node_init» : Stmt :=
+  block [(.call none ["node", "state"] [.var "node", .var "state"] «urcu_wait_set_state»), (.prim none (.ext "cds_wfs_node_init") [.fieldAddr (.var "node") "node"])]
+def «urcu_wait_node_init.params» : List String := ["node", "state"]
+
+/-- `urcu_adaptative_wake_up` (src/urcu-wait.h) -/
+def «urcu_adaptative_wake_up» : Stmt :=
+  block [(.prim none .ustore [.fieldAddr (.var "wait") "state", .cst "URCU_WAIT_WAKEUP" (1), .cst "CMM_RELEASE" (3)]), (.prim (some "_t1") .uload [.fieldAddr (.var "wait") "state", .cst "CMM_RELAXED" (0)]), (.ifte (.un .lnot (.bin .band (.var "_t1") (.cst "URCU_WAIT_RUNNING" (2)))) (block [(.prim (some "_t2") (.ext "futex_noasync") [.fieldAddr (.var "wait") "state", .cst "FUTEX_WAKE" (1), .lit 1, .null, .null, .lit 0]), (.ifte (.bin .lt (.var "_t2") (.lit 0)) (block [(.prim (some "_t3") (.ext "errno") []), (.prim none (.ext "urcu_die") [.var "_t3"])]) (.skip))]) (.skip)), (.prim none (.ext "uatomic_or_mo") [.fieldAddr (.var "wait") "state", .cst "URCU_WAIT_TEARDOWN" (4)])]
+def «urcu_adaptative_wake_up.params» : List String := ["wait"]
+
+/-- `urcu_adaptative_busy_wait` (src/urcu-wait.h) -/
+def «urcu_adaptative_busy_wait» : Stmt :=
+  block [(.assign "_goto_skip_futex_wait" (.lit 0)), (.prim none .rmb []), (.assign "i" (.lit 0)), (.loop (.ifte (.bin .lt (.var "i") (.cst "URCU_WAIT_ATTEMPTS" (1000))) (block [(.prim (some "_t1") .uload [.fieldAddr (.var "wait") "state", .cst "CMM_ACQUIRE" (2)]), (.ifte (.bin .ne (.var "_t1") (.cst "URCU_WAIT_WAITING" (0))) (block [(.assign "_goto_skip_futex_wait" (.lit 1)), (.brk)]) (.skip)), (.ifte (.var "_goto_skip_futex_wait") (.brk) (.prim none .relax [])), (.ifte (.var "_goto_skip_futex_wait") (.brk) (block [(.assign "_t2" (.var "i")), (.assign "i" (.bin .add (.var "i") (.lit 1)))]))]) (.brk))), (.ifte (.var "_goto_skip_futex_wait") (.skip) (.loop (block [(.prim (some "_t3") .uload [.fieldAddr (.var "wait") "state", .cst "CMM_ACQUIRE" (2)]), (.ifte (.bin .eq (.var "_t3") (.cst "URCU_WAIT_WAITING" (0))) (block [(.prim (some "_t4") (.ext "futex_noasync") [.fieldAddr (.var "wait") "state", .cst "FUTEX_WAIT" (0), .cst "URCU_WAIT_WAITING" (0), .null, .null, .lit 0]), (.ifte (.un .lnot (.var "_t4")) (.cont) (.skip)), (.prim (some "_t5") (.ext "errno") []), (.assign "_t6" (.var "_t5")), (.ifte (.bin .eq (.var "_t6") (.cst "EAGAIN" (11))) (block [(.assign "_goto_skip_futex_wait" (.lit 1)), (.brk), (.ifte (.var "_goto_skip_futex_wait") (.brk) (.skip))]) (.ifte (.bin .eq (.var "_t6") (.cst "EINTR" (4))) (.skip) (block [(.prim (some "_t7") (.ext "errno") []), (.prim none (.ext "urcu_die") [.var "_t7"])]))), (.ifte (.var "_goto_skip_futex_wait") (.brk) (.skip))]) (.brk))]))), (.prim none .uor [.fieldAddr (.var "wait") "state", .cst "URCU_WAIT_RUNNING" (2), .cst "CMM_RELAXED" (0)]), (.assign "i" (.lit 0)), (.loop (.ifte (.bin .lt (.var "i") (.cst "URCU_WAIT_ATTEMPTS" (1000))) (block [(.prim (some "_t8") .uload [.fieldAddr (.var "wait") "state", .cst "CMM_RELAXED" (0)]), (.ifte (.bin .band (.var "_t8") (.cst "URCU_WAIT_TEARDOWN" (4))) (.brk) (.skip)), (.prim none .relax []), (.assign "_t9" (.var "i")), (.assign "i" (.bin .add (.var "i") (.lit 1)))]) (.brk))), (.loop (block [(.prim (some "_t10") .uload [.fieldAddr (.var "wait") "state", .cst "CMM_ACQUIRE" (2)]), (.ifte (.un .lnot (.bin .band (.var "_t10") (.cst "URCU_WAIT_TEARDOWN" (4)))) (.prim none (.ext "poll") [.null, .lit 0, .lit 10]) (.brk))]))]
+def «urcu_adaptative_busy_wait.params» : List String := ["wait"]
+
+/-- `call_rcu_wait` (src/urcu-call-rcu-impl.h) -/
+def «call_rcu_wait» : Stmt :=
+  block [(.prim none .mb []), (.loop (block [(.prim (some "_t1") .uload [.fieldAddr (.var "crdp") "futex", .cst "CMM_RELAXED" (0)]), (.ifte (.bin .eq (.var "_t1") (.lit (-1))) (block [(.prim (some "_t2") (.ext "futex_async") [.fieldAddr (.var "crdp") "futex", .cst "FUTEX_WAIT" (0), .lit (-1), .null, .null, .lit 0]), (.ifte (.un .lnot (.var "_t2")) (.cont) (.skip)), (.prim (some "_t3") (.ext "errno") []), (.assign "_t4" (.var "_t3")), (.ifte (.bin .eq (.var "_t4") (.cst "EAGAIN" (11))) (.ret none) (.ifte (.bin .eq (.var "_t4") (.cst "EINTR" (4))) (.skip) (block [(.prim (some "_t5") (.ext "errno") []), (.prim none (.ext "urcu_die") [.var "_t5"])])))]) (.brk))]))]
+def «call_rcu_wait.params» : List String := ["crdp"]
+
+/-- `call_rcu_wake_up` (src/urcu-call-rcu-impl.h) -/
+def «call_rcu_wake_up» : Stmt :=
+  block [(.prim none .mb []), (.prim (some "_t1") .uload [.fieldAddr (.var "crdp") "futex", .cst "CMM_RELAXED" (0)]), (.ifte (.bin .eq (.var "_t1") (.lit (-1))) (block [(.prim none .ustore [.fieldAddr (.var "crdp") "futex", .lit 0, .cst "CMM_RELAXED" (0)]), (.prim (some "_t2") (.ext "futex_async") [.fieldAddr (.var "crdp") "futex", .cst "FUTEX_WAKE" (1), .lit 1, .null, .null, .lit 0]), (.ifte (.bin .lt (.var "_t2") (.lit 0)) (block [(.prim (some "_t3") (.ext "errno") []), (.prim none (.ext "urcu_die") [.var "_t3"])]) (.skip))]) (.skip))]
+def «call_rcu_wake_up.params» : List String := ["crdp"]
+
+/-- `call_rcu_completion_wait` (src/urcu-call-rcu-impl.h) -/
+def «call_rcu_completion_wait» : Stmt :=
+  block [(.prim none .mb []), (.loop (block [(.prim (some "_t1") .uload [.fieldAddr (.var "completion") "futex", .cst "CMM_RELAXED" (0)]), (.ifte (.bin .eq (.var "_t1") (.lit (-1))) (block [(.prim (some "_t2") (.ext "futex_async") [.fieldAddr (.var "completion") "futex", .cst "FUTEX_WAIT" (0), .lit (-1), .null, .null, .lit 0]), (.ifte (.un .lnot (.var "_t2")) (.cont) (.skip)), (.prim (some "_t3") (.ext "errno") []), (.assign "_t4" (.var "_t3")), (.ifte (.bin .eq (.var "_t4") (.cst "EAGAIN" (11))) (.ret none) (.ifte (.bin .eq (.var "_t4") (.cst "EINTR" (4))) (.skip) (block [(.prim (some "_t5") (.ext "errno") []), (.prim none (.ext "urcu_die") [.var "_t5"])])))]) (.brk))]))]
+def «call_rcu_completion_wait.params» : List String := ["completion"]
+
+/-- `call_rcu_completion_wake_up` (src/urcu-call-rcu-impl.h) -/
+def «call_rcu_completion_wake_up» : Stmt :=
+  block [(.prim none .mb []), (.prim (some "_t1") .uload [.fieldAddr (.var "completion") "futex", .cst "CMM_RELAXED" (0)]), (.ifte (.bin .eq (.var "_t1") (.lit (-1))) (block [(.prim none .ustore [.fieldAddr (.var "completion") "futex", .lit 0, .cst "CMM_RELAXED" (0)]), (.prim (some "_t2") (.ext "futex_async") [.fieldAddr (.var "completion") "futex", .cst "FUTEX_WAKE" (1), .lit 1, .null, .null, .lit 0]), (.ifte (.bin .lt (.var "_t2") (.lit 0)) (block [(.prim (some "_t3") (.ext "errno") []), (.prim none (.ext "urcu_die") [.var "_t3"])]) (.skip))]) (.skip))]
+def «call_rcu_completion_wake_up.params» : List String := ["completion"]
+
+/-- `wake_call_rcu_thread` (src/urcu-call-rcu-impl.h) -/
+def «wake_call_rcu_thread» : Stmt :=
+  block [(.prim (some "_t1") .uload [.fieldAddr (.var "crdp") "flags", .cst "CMM_RELAXED" (0)]), (.ifte (.un .lnot (.bin .band (.var "_t1") (.cst "URCU_CALL_RCU_RT" (1)))) (.call none ["crdp"] [.var "crdp"] «call_rcu_wake_up») (.skip))]
+def «wake_call_rcu_thread.params» : List String := ["crdp"]
+
+/-- `_cds_wfcq_node_init` (include/urcu/static/wfcqueue.h) -/
+def «_cds_wfcq_node_init» : Stmt :=
+  block [(.assign "_t1" (.null)), (.pstore (.fieldAddr (.var "node") "next") (.var "_t1"))]
+def «_cds_wfcq_node_init.params» : List String := ["node"]
+
+/-- `_call_rcu` (src/urcu-call-rcu-impl.h) -/
+def «_call_rcu» : Stmt :=
+  block [(.call none ["node"] [.fieldAddr (.var "head") "next"] «_cds_wfcq_node_init»), (.assign "_t1" (.var "func")), (.pstore (.fieldAddr (.var "head") "func") (.var "_t1")), (.call none ["head", "tail", "new_tail"] [.fieldAddr (.var "crdp") "cbs_head", .fieldAddr (.var "crdp") "cbs_tail", .fieldAddr (.var "head") "next"] «_cds_wfcq_enqueue»), (.prim none .uinc [.fieldAddr (.var "crdp") "qlen", .cst "CMM_RELAXED" (0)]), (.call none ["crdp"] [.var "crdp"] «wake_call_rcu_thread»)]
+def «_call_rcu.params» : List String := ["head", "func", "crdp"]
+
+/-- `futex_wait` (src/workqueue.c) -/
+def «futex_wait» : Stmt :=
+  block [(.prim none .mb []), (.loop (block [(.prim (some "_t1") .uload [.var "futex", .cst "CMM_RELAXED" (0)]), (.ifte (.bin .eq (.var "_t1") (.lit (-1))) (block [(.prim (some "_t2") (.ext "futex_async") [.var "futex", .cst "FUTEX_WAIT" (0), .lit (-1), .null, .null, .lit 0]), (.ifte (.un .lnot (.var "_t2")) (.cont) (.skip)), (.prim (some "_t3") (.ext "errno") []), (.assign "_t4" (.var "_t3")), (.ifte (.bin .eq (.var "_t4") (.cst "EAGAIN" (11))) (.ret none) (.ifte (.bin .eq (.var "_t4") (.cst "EINTR" (4))) (.skip) (block [(.prim (some "_t5") (.ext "errno") []), (.prim none (.ext "urcu_die") [.var "_t5"])])))]) (.brk))]))]
+def «futex_wait.params» : List String := ["futex"]
+
+/-- `futex_wake_up` (src/workqueue.c) -/
+def «futex_wake_up» : Stmt :=
+  block [(.prim none .mb []), (.prim (some "_t1") .uload [.var "futex", .cst "CMM_RELAXED" (0)]), (.ifte (.bin .eq (.var "_t1") (.lit (-1))) (block [(.prim none .ustore [.var "futex", .lit 0, .cst "CMM_RELAXED" (0)]), (.prim (some "_t2") (.ext "futex_async") [.var "futex", .cst "FUTEX_WAKE" (1), .lit 1, .null, .null, .lit 0]), (.ifte (.bin .lt (.var "_t2") (.lit 0)) (block [(.prim (some "_t3") (.ext "errno") []), (.prim none (.ext "urcu_die") [.var "_t3"])]) (.skip))]) (.skip))]
+def «futex_wake_up.params» : List String := ["futex"]
+
+/-- `wake_worker_thread` (src/workqueue.c) -/
+def «wake_worker_thread» : Stmt :=
+  block [(.prim (some "_t1") .uload [.fieldAddr (.var "workqueue") "flags", .cst "CMM_RELAXED" (0)]), (.ifte (.un .lnot (.bin .band (.var "_t1") (.cst "URCU_WORKQUEUE_RT" (1)))) (.call none ["futex"] [.fieldAddr (.var "workqueue") "futex"] «futex_wake_up») (.skip))]
+def «wake_worker_thread.params» : List String := ["workqueue"]
+
+/-- `wake_up_defer` (src/urcu-defer-impl.h) -/
+def «wake_up_defer» : Stmt :=
+  block [(.prim (some "_t1") .uload [.addrGlob "defer_thread_futex", .cst "CMM_RELAXED" (0)]), (.ifte (.bin .eq (.var "_t1") (.lit (-1))) (block [(.prim none .ustore [.addrGlob "defer_thread_futex", .lit 0, .cst "CMM_RELAXED" (0)]), (.prim (some "_t2") (.ext "futex_noasync") [.addrGlob "defer_thread_futex", .cst "FUTEX_WAKE" (1), .lit 1, .null, .null, .lit 0]), (.ifte (.bin .lt (.var "_t2") (.lit 0)) (block [(.prim (some "_t3") (.ext "errno") []), (.prim none (.ext "urcu_die") [.var "_t3"])]) (.skip))]) (.skip))]
+def «wake_up_defer.params» : List String := []
+
+/-- `wait_defer` (src/urcu-defer-impl.h) -/
+def «wait_defer» : Stmt :=
+  block [(.prim none .udec [.addrGlob "defer_thread_futex", .cst "CMM_RELAXED" (0)]), (.prim none .mb []), (.prim (some "_t1") .uload [.addrGlob "defer_thread_stop", .cst "CMM_RELAXED" (0)]), (.ifte (.var "_t1") (block [(.prim none .ustore [.addrGlob "defer_thread_futex", .lit 0, .cst "CMM_RELAXED" (0)]), (.prim none (.ext "pthread_exit") [.lit 0])]) (.skip)), (.prim (some "_t2") (.ext "rcu_defer_num_callbacks") []), (.ifte (.var "_t2") (block [(.prim none .mb []), (.prim none .ustore [.addrGlob "defer_thread_futex", .lit 0, .cst "CMM_RELAXED" (0)])]) (block [(.prim none .rmb []), (.loop (block [(.prim (some "_t3") .uload [.addrGlob "defer_thread_futex", .cst "CMM_RELAXED" (0)]), (.ifte (.bin .eq (.var "_t3") (.lit (-1))) (block [(.prim (some "_t4") (.ext "futex_noasync") [.addrGlob "defer_thread_futex", .cst "FUTEX_WAIT" (0), .lit (-1), .null, .null, .lit 0]), (.ifte (.un .lnot (.var "_t4")) (.cont) (.skip)), (.prim (some "_t5") (.ext "errno") []), (.assign "_t6" (.var "_t5")), (.ifte (.bin .eq (.var "_t6") (.cst "EAGAIN" (11))) (.ret none) (.ifte (.bin .eq (.var "_t6") (.cst "EINTR" (4))) (.skip) (block [(.prim (some "_t7") (.ext "errno") []), (.prim none (.ext "urcu_die") [.var "_t7"])])))]) (.brk))]))]))]
+def «wait_defer.params» : List String := []
+
+/-- `smp_mb_master` (src/urcu.c, with RCU_MEMBARRIER) -/
+def «memb.smp_mb_master» : Stmt :=
+  .ifte (.pload (.addrGlob "urcu_memb_has_sys_membarrier")) (block [(.ifte (.pload (.addrGlob "urcu_memb_has_sys_membarrier_private_expedited")) (.assign "_t1" (.cst "MEMBARRIER_CMD_PRIVATE_EXPEDITED" (8))) (.assign "_t1" (.cst "MEMBARRIER_CMD_SHARED" (1)))), (.prim (some "_t2") (.ext "membarrier") [.var "_t1", .lit 0]), (.ifte (.var "_t2") (block [(.prim (some "_t3") (.ext "errno") []), (.prim none (.ext "urcu_die") [.var "_t3"])]) (.skip))]) (.prim none .mb [])
+def «memb.smp_mb_master.params» : List String := []
+
+/-- `wait_gp` (src/urcu.c, with RCU_MEMBARRIER) -/
+def «memb.wait_gp» : Stmt :=
+  block [(.assign "_goto_end" (.lit 0)), (.call none [] [] «memb.smp_mb_master»), (.prim none (.ext "mutex_unlock") [.addrGlob "rcu_registry_lock"]), (.loop (block [(.prim (some "_t1") .uload [.fieldAddr (.addrGlob "rcu_gp") "futex", .cst "CMM_RELAXED" (0)]), (.ifte (.bin .eq (.var "_t1") (.lit (-1))) (block [(.prim (some "_t2") (.ext "futex_async") [.fieldAddr (.addrGlob "rcu_gp") "futex", .cst "FUTEX_WAIT" (0), .lit (-1), .null, .null, .lit 0]), (.ifte (.un .lnot (.var "_t2")) (.cont) (.skip)), (.prim (some "_t3") (.ext "errno") []), (.assign "_t4" (.var "_t3")), (.ifte (.bin .eq (.var "_t4") (.cst "EAGAIN" (11))) (block [(.assign "_goto_end" (.lit 1)), (.brk), (.ifte (.var "_goto_end") (.brk) (.skip))]) (.ifte (.bin .eq (.var "_t4") (.cst "EINTR" (4))) (.skip) (block [(.prim (some "_t5") (.ext "errno") []), (.prim none (.ext "urcu_die") [.var "_t5"])]))), (.ifte (.var "_goto_end") (.brk) (.skip))]) (.brk))])), (.prim none (.ext "mutex_lock") [.addrGlob "rcu_registry_lock"])]
+def «memb.wait_gp.params» : List String := []
+
+/-- `smp_mb_master` (src/urcu.c, with RCU_MB) -/
+def «mb.smp_mb_master» : Stmt :=
+  .prim none .mb []
+def «mb.smp_mb_master.params» : List String := []
+
+/-- `wait_gp` (src/urcu.c, with RCU_MB) -/
+def «mb.wait_gp» : Stmt :=
+  block [(.assign "_goto_end" (.lit 0)), (.call none [] [] «mb.smp_mb_master»), (.prim none (.ext "mutex_unlock") [.addrGlob "rcu_registry_lock"]), (.loop (block [(.prim (some "_t1") .uload [.fieldAddr (.addrGlob "rcu_gp") "futex", .cst "CMM_RELAXED" (0)]), (.ifte (.bin .eq (.var "_t1") (.lit (-1))) (block [(.prim (some "_t2") (.ext "futex_async") [.fieldAddr (.addrGlob "rcu_gp") "futex", .cst "FUTEX_WAIT" (0), .lit (-1), .null, .null, .lit 0]), (.ifte (.un .lnot (.var "_t2")) (.cont) (.skip)), (.prim (some "_t3") (.ext "errno") []), (.assign "_t4" (.var "_t3")), (.ifte (.bin .eq (.var "_t4") (.cst "EAGAIN" (11))) (block [(.assign "_goto_end" (.lit 1)), (.brk), (.ifte (.var "_goto_end") (.brk) (.skip))]) (.ifte (.bin .eq (.var "_t4") (.cst "EINTR" (4))) (.skip) (block [(.prim (some "_t5") (.ext "errno") []), (.prim none (.ext "urcu_die") [.var "_t5"])]))), (.ifte (.var "_goto_end") (.brk) (.skip))]) (.brk))])), (.prim none (.ext "mutex_lock") [.addrGlob "rcu_registry_lock"])]
+def «mb.wait_gp.params» : List String := []
+
+/-- `wait_gp` (src/urcu-qsbr.c) -/
+def «qsbr.wait_gp» : Stmt :=
+  block [(.prim none .rmb []), (.loop (block [(.prim (some "_t1") .uload [.fieldAddr (.addrGlob "urcu_qsbr_gp") "futex", .cst "CMM_RELAXED" (0)]), (.ifte (.bin .eq (.var "_t1") (.lit (-1))) (block [(.prim (some "_t2") (.ext "futex_noasync") [.fieldAddr (.addrGlob "urcu_qsbr_gp") "futex", .cst "FUTEX_WAIT" (0), .lit (-1), .null, .null, .lit 0]), (.ifte (.un .lnot (.var "_t2")) (.cont) (.skip)), (.prim (some "_t3") (.ext "errno") []), (.assign "_t4" (.var "_t3")), (.ifte (.bin .eq (.var "_t4") (.cst "EAGAIN" (11))) (.ret none) (.ifte (.bin .eq (.var "_t4") (.cst "EINTR" (4))) (.skip) (block [(.prim (some "_t5") (.ext "errno") []), (.prim none (.ext "urcu_die") [.var "_t5"])])))]) (.brk))]))]
+def «qsbr.wait_gp.params» : List String := []
+
 /-- functions the translator could not express in the IR subset (listed, never defaulted) -/
 def untranslated : List String := []
-def translated : List String := ["urcu_memb_smp_mb_slave", "_urcu_memb_read_lock_update", "_urcu_memb_read_lock", "urcu_common_wake_up_gp", "_urcu_memb_read_unlock_update_and_wakeup", "_urcu_memb_read_unlock", "_urcu_memb_read_ongoing", "_urcu_mb_read_lock_update", "_urcu_mb_read_lock", "_urcu_mb_read_unlock_update_and_wakeup", "_urcu_mb_read_unlock", "_urcu_mb_read_ongoing", "urcu_bp_smp_mb_slave", "_urcu_bp_read_lock_update", "_urcu_bp_read_lock", "_urcu_bp_read_unlock", "_urcu_bp_read_ongoing", "_urcu_qsbr_read_lock", "_urcu_qsbr_read_unlock", "_urcu_qsbr_read_ongoing", "urcu_qsbr_wake_up_gp", "_urcu_qsbr_quiescent_state_update_and_wakeup", "_urcu_qsbr_quiescent_state", "_urcu_qsbr_thread_offline", "_urcu_qsbr_thread_online", "___cds_wfs_end", "_cds_wfs_push", "___cds_wfs_node_sync_next", "___cds_wfs_pop", "___cds_wfs_pop_all", "_cds_wfs_empty", "___cds_lfs_empty_head", "_cds_lfs_push", "___cds_lfs_pop", "___cds_lfs_pop_all", "_cds_lfs_empty", "___cds_wfcq_append", "_cds_wfcq_enqueue", "_cds_wfcq_empty", "___cds_wfcq_busy_wait", "___cds_wfcq_node_sync_next", "_cds_wfcq_node_init_atomic", "___cds_wfcq_dequeue_with_state", "___cds_wfcq_splice", "_cds_lfq_enqueue_rcu", "make_dummy", "enqueue_dummy", "rcu_free_dummy", "_cds_lfq_dequeue_rcu", "urcu_ref_get_safe", "urcu_ref_put", "urcu_ref_get_unless_zero"]
+def translated : List String := ["urcu_memb_smp_mb_slave", "_urcu_memb_read_lock_update", "_urcu_memb_read_lock", "urcu_common_wake_up_gp", "_urcu_memb_read_unlock_update_and_wakeup", "_urcu_memb_read_unlock", "_urcu_memb_read_ongoing", "_urcu_mb_read_lock_update", "_urcu_mb_read_lock", "_urcu_mb_read_unlock_update_and_wakeup", "_urcu_mb_read_unlock", "_urcu_mb_read_ongoing", "urcu_bp_smp_mb_slave", "_urcu_bp_read_lock_update", "_urcu_bp_read_lock", "_urcu_bp_read_unlock", "_urcu_bp_read_ongoing", "_urcu_qsbr_read_lock", "_urcu_qsbr_read_unlock", "_urcu_qsbr_read_ongoing", "urcu_qsbr_wake_up_gp", "_urcu_qsbr_quiescent_state_update_and_wakeup", "_urcu_qsbr_quiescent_state", "_urcu_qsbr_thread_offline", "_urcu_qsbr_thread_online", "___cds_wfs_end", "_cds_wfs_push", "___cds_wfs_node_sync_next", "___cds_wfs_pop", "___cds_wfs_pop_all", "_cds_wfs_empty", "___cds_lfs_empty_head", "_cds_lfs_push", "___cds_lfs_pop", "___cds_lfs_pop_all", "_cds_lfs_empty", "___cds_wfcq_append", "_cds_wfcq_enqueue", "_cds_wfcq_empty", "___cds_wfcq_busy_wait", "___cds_wfcq_node_sync_next", "_cds_wfcq_node_init_atomic", "___cds_wfcq_dequeue_with_state", "___cds_wfcq_splice", "_cds_lfq_enqueue_rcu", "make_dummy", "enqueue_dummy", "rcu_free_dummy", "_cds_lfq_dequeue_rcu", "urcu_ref_get_safe", "urcu_ref_put", "urcu_ref_get_unless_zero", "urcu_wait_add", "urcu_move_waiters", "urcu_wait_set_state", "urcu_wait_node_init", "urcu_adaptative_wake_up", "urcu_adaptative_busy_wait", "call_rcu_wait", "call_rcu_wake_up", "call_rcu_completion_wait", "call_rcu_completion_wake_up", "wake_call_rcu_thread", "_cds_wfcq_node_init", "_call_rcu", "futex_wait", "futex_wake_up", "wake_worker_thread", "wake_up_defer", "wait_defer", "memb.smp_mb_master", "memb.wait_gp", "mb.smp_mb_master", "mb.wait_gp", "qsbr.wait_gp"]
 end UrcuVerif.Gen.Src
